@@ -52,6 +52,10 @@ class C02Facade(Harness):
             ax = 0 if shape[0] == 3 else 1
             for wk in ("none", "int"):
                 yield (f"rows-N{n}-S{_shape_name(shape)}-iTF-w{wk}-g{ax}-three", dict(N=n, shape=list(shape), inc=[True, False], weights=wk, form="rows", gap=ax, spec="static", nan=False))
+        # edge arrays + per-axis keyword lists / a scalar keyword (includes_right_edge given through the facade, not a binning object)
+        for inc in ("TF", "FT", "FF"):
+            for form in ("rows", "h2"):
+                yield (f"{form}-N2-S2x1-i{inc}-wint-edges-kw", dict(N=2, shape=[2, 1], inc=[c == "T" for c in inc], weights="int", form=form, gap=None, spec="edges_kw", nan=False))
         # numpy-style edge arrays (right edge always included by static_binning's default)
         for (n, shape) in ([(2, (2, 1)), (1, (1, 2, 2))] if tier == "quick" else [(2, (2, 1)), (2, (1, 2)), (3, (2, 2)), (2, (1, 2, 2))]):
             yield (f"rows-N{n}-S{_shape_name(shape)}-edges-wint", dict(N=n, shape=list(shape), inc=[True] * len(shape), weights="int",
@@ -85,11 +89,14 @@ class C02Facade(Harness):
         facade = E.mod("physt._facade")
         SB = E.mod("physt.binnings").StaticBinning
         D = len(p["shape"])
-        if p["spec"] == "edges":
+        kw = {}
+        if p["spec"] == "edges_kw":
+            bins = [np.asarray([x["l"][k][0]] + list(x["r"][k])) for k in range(D)]
+            kw["includes_right_edge"] = p["inc"][0] if len(set(p["inc"])) == 1 else list(p["inc"])
+        elif p["spec"] == "edges":
             bins = [np.asarray([x["l"][k][0]] + list(x["r"][k])) for k in range(D)]
         else:
             bins = [SB([[l, r] for l, r in zip(x["l"][k], x["r"][k])], includes_right_edge=p["inc"][k]) for k in range(D)]
-        kw = {}
         if "w" in x:
             kw["weights"] = np.asarray(x["w"]) if p["N"] else np.asarray(x["w"], dtype=int if p["weights"] == "int" else float)
         rows = x["x"]
